@@ -59,6 +59,7 @@ func newConn(width, height int, c net.Conn) *Conn {
 		bw:         bufio.NewWriter(c),
 		fbupc:      make(chan FrameBufferUpdateRequest, 128),
 		closec:     make(chan bool),
+		pusherGone: make(chan struct{}),
 		feed:       feed,
 		Feed:       feed, // the send-only version
 		event:      event,
@@ -80,6 +81,9 @@ type Conn struct {
 	bw     *bufio.Writer
 	fbupc  chan FrameBufferUpdateRequest
 	closec chan bool // never sent; just closed
+
+	// closed when the frame pusher goroutine has ended: nobody consumes fbupc any more
+	pusherGone chan struct{}
 
 	// should only be mutated once during handshake, but then
 	// only read.
@@ -256,6 +260,7 @@ func (c *Conn) pushFramesLoop() {
 	// failf panics; this goroutine is outside the recover of serve() and of the
 	// server's connection handler, so an unsupported pixel format must end the
 	// connection here, not the process.
+	defer close(c.pusherGone)
 	defer func() {
 		if e := recover(); e != nil {
 			log.Debugf("Client disconnect: %v", e)
@@ -497,7 +502,13 @@ func (c *Conn) handleUpdateRequest() {
 	c.read("framebuffer-update.y", &req.Y)
 	c.read("framebuffer-update.width", &req.Width)
 	c.read("framebuffer-update.height", &req.Height)
-	c.fbupc <- req
+	// requests already buffered keep coming after the pusher has given up (and closed the
+	// socket): do not wait for a consumer that is gone
+	select {
+	case c.fbupc <- req:
+	case <-c.pusherGone:
+		c.failf("frame pusher gone")
+	}
 }
 
 // 6.4.4
